@@ -735,6 +735,9 @@ def run(ck):
     ck.not_decided = ('behaviour over histories (that freed capacity is reusable in every interleaving); '
                       'per-uid hash arithmetic in adjust_connections_for_uid beyond its call sites')
     for v, prog in ck.programs(thorough_variants=('B',)):
+        from rules import listops
+        rq = ck.rule('C13.10', 'the public list operations do what their names say (dbus/dbus-list.c; abstract interpretation of their CFG over every circular list of 0..3 links with equal and distinct data, every link / anchor / data argument, with and without memory for a new link): resulting order, return value, freed and detached links agree with the specification of append, prepend, insert_after, remove (first match), remove_last / find_last (last match), remove_link, clear, get/pop first/last (link), get_length, length_is_one', 'ABS', breaks='the counters mirror list operations: a removal that unlinks nothing (or the wrong link) leaves the count and the list disagreeing, and the limit is enforced against the wrong number', floor=15)
+        listops.check(prog, rq)
         c13_1(ck, prog)
         c13_1d(ck, prog)
         c13_1e(ck, prog)
